@@ -3,6 +3,7 @@ import NmVerif.Lemmas.Pad
 import NmVerif.Lemmas.Take
 import NmVerif.Lemmas.Repeat
 import NmVerif.Lemmas.Concatenate
+import NmVerif.Lemmas.Roll
 /-
   C04 — selecting / replicating / joining / generating views equal their reference result.
   Only the property theorems live here; models are in `NmVerif/Index/*.lean`, specs + helper lemmas in
@@ -375,5 +376,101 @@ theorem concatenate_negative_axis_counterexample :
 example : ConcatCompatible [2, 3] [2, 1] 1 := ⟨rfl, by decide, by intro j hj; cases j with | zero => rfl | succ j => cases j with | zero => exact absurd rfl hj | succ j => rfl⟩
 example : (concatenateView [2, 3] [2, 1] (some 1)).map (fun v => (v.dst, v.map [1, 2], v.map [1, 3])) =
     some ([2, 4], some (false, [1, 2]), some (true, [1, 0])) := by decide
+
+/-! ### roll (domain of the element theorems: `|shift| ≤ extent`; the unchanged code wraps once only, so a larger shift
+    leaves the axis — `roll_large_shift_counterexample`, known finding roll.large-shift, DESIGN F5) -/
+
+/-- an axis in `[-dim, dim)` is accepted and the shape is unchanged (NumPy) -/
+theorem roll_shape (s : Shape) (shift axis : Int) (k : Nat) (hk : normalizeAxis1 axis s.length = some k) :
+    ∃ v, rollView s shift axis = some v ∧ v.src = s ∧ v.dst = s := by
+  simp [rollView, rollAxesView, shapeRoll, hk]
+
+/-- an axis outside `[-dim, dim)` is refused -/
+theorem roll_nothing (s : Shape) (shift axis : Int) (h : axis < -(s.length : Int) ∨ (s.length : Int) ≤ axis) :
+    rollView s shift axis = none := by
+  simp [rollView, rollAxesView, shapeRoll, normalizeAxis1_none axis s.length h]
+
+/-- `out[…, x, …] = a[…, (x - shift) mod n, …]` for every accepted axis (negative ones included), `|shift| ≤ n` -/
+theorem roll_elem (s : Shape) (shift axis : Int) (k : Nat) (hk : normalizeAxis1 axis s.length = some k)
+    (v : IxView) (hv : rollView s shift axis = some v) (d : Idx) (hd : InShape d s)
+    (n x : Nat) (hn : s[k]? = some n) (hx : d[k]? = some x) (h1 : -(n : Int) ≤ shift) (h2 : shift ≤ (n : Int)) :
+    v.map d = some (d.set k (rollSrc n x shift)) := by
+  simp only [rollView, rollAxesView, shapeRoll, hk, List.all_cons, List.all_nil, Option.isSome_some, Bool.and_self,
+    if_true, Option.map_some, Option.some.injEq] at hv
+  subst hv
+  have hkn := (normalizeAxis1_some axis _ k hk).1
+  have hkd : k < d.length := by have := hd.length_eq; omega
+  have e1 : s[k] = n := by simpa [hkn] using hn
+  have e2 : d[k] = x := by simpa [hkd] using hx
+  subst e1 e2
+  simp [indexRollU_single s d shift axis k hk hd h1 h2]
+
+theorem roll_inBounds (s : Shape) (shift axis : Int) (k : Nat) (hk : normalizeAxis1 axis s.length = some k)
+    (n : Nat) (hn : s[k]? = some n) (h1 : -(n : Int) ≤ shift) (h2 : shift ≤ (n : Int))
+    (v : IxView) (hv : rollView s shift axis = some v) : v.InBounds := by
+  have hkn := (normalizeAxis1_some axis _ k hk).1
+  have hsrc : v.src = s ∧ v.dst = s := by
+    obtain ⟨w, hw, h3, h4⟩ := roll_shape s shift axis k hk
+    rw [hv] at hw; simp only [Option.some.injEq] at hw; subst hw; exact ⟨h3, h4⟩
+  intro d hd i hi
+  rw [hsrc.2] at hd
+  rw [hsrc.1]
+  have hkd : k < d.length := by have := hd.length_eq; omega
+  rw [roll_elem s shift axis k hk v hv d hd n d[k] hn (by simp [hkd]) h1 h2] at hi
+  simp only [Option.some.injEq] at hi
+  subst hi
+  have e1 : s[k] = n := by simpa [hkn] using hn
+  have hpos : 0 < n := by
+    have := ((inShape_iff_forall _ _).1 hd).2 k hkd hkn
+    omega
+  have := inShape_set (k := k) (x := rollSrc n d[k] shift) (e := s[k]) hd (by rw [e1]; exact rollSrc_lt n _ shift hpos)
+  simpa using this
+
+/-- axis None: same shape, never Nothing -/
+theorem rollNone_shape (s : Shape) (shift : Int) :
+    ∃ v, rollNoneView s shift = some v ∧ v.src = s ∧ v.dst = s := by
+  simp [rollNoneView, rollView, rollAxesView, shapeRoll, normalizeAxis1, IxView.comp, reshapeViewRaw]
+
+/-- axis None: `out.flat[j] = a.flat[(j - shift) mod size]`, `|shift| ≤ size` -/
+theorem rollNone_elem (s : Shape) (shift : Int) (h1 : -(prod s : Int) ≤ shift) (h2 : shift ≤ (prod s : Int))
+    (v : IxView) (hv : rollNoneView s shift = some v) (d : Idx) (hd : InShape d s) :
+    v.map d = some (ndindex s (rollSrc (prod s) (computeOffset d (strides s)) shift)) := by
+  have hoff := offset_lt hd
+  have hk0 : normalizeAxis1 0 [prod s].length = some 0 := by simp [normalizeAxis1]
+  obtain ⟨r, hr, hr1, hr2⟩ := roll_shape [prod s] shift 0 0 hk0
+  have hmap := roll_elem [prod s] shift 0 0 hk0 r hr [computeOffset d (strides s)] (by simp [InShape, hoff])
+    (prod s) (computeOffset d (strides s)) (by simp) (by simp) h1 h2
+  simp only [rollNoneView, hr, Option.map_some, Option.some.injEq] at hv
+  subst hv
+  have e0 : reshapeIdx [prod s] s d = [computeOffset d (strides s)] := by
+    simp [reshapeIdx, strides, prod, computeIndices, Nat.mod_eq_of_lt hoff]
+  simp only [IxView.comp, reshapeViewRaw, Option.bind_some, e0, hmap, List.set_cons_zero]
+  simp [reshapeIdx, strides, prod, computeOffset, ndindex]
+
+theorem rollNone_inBounds (s : Shape) (hs : Pos s) (shift : Int) (h1 : -(prod s : Int) ≤ shift) (h2 : shift ≤ (prod s : Int))
+    (v : IxView) (hv : rollNoneView s shift = some v) : v.InBounds := by
+  obtain ⟨w, hw, h3, h4⟩ := rollNone_shape s shift
+  rw [hv] at hw; simp only [Option.some.injEq] at hw; subst hw
+  intro d hd i hi
+  rw [h4] at hd
+  rw [rollNone_elem s shift h1 h2 v hv d hd] at hi
+  simp only [Option.some.injEq] at hi
+  subst hi
+  rw [h3]
+  exact indices_inShape hs _
+
+/-- the unchanged code wraps once: `roll(a, 2, axis 0)` on extent 1 reads index 2^64-1 (NumPy: `(0-2) mod 1 = 0`) -/
+theorem roll_large_shift_counterexample :
+    (rollView [1] 2 0).bind (·.map [0]) ≠ some [rollSrc 1 0 2] := by decide
+
+/-- a repeated axis keeps only the last shift where NumPy adds them up: `roll(a, (1,1), (0,0))` on extent 3 reads
+    `(0-1) mod 3 = 2` at destination 0, NumPy reads `(0-2) mod 3 = 1` -/
+theorem roll_repeated_axis_counterexample :
+    (rollAxesView [3] [1, 1] [0, 0]).bind (·.map [0]) ≠ some [rollSrc 3 0 (1 + 1)] := by decide
+
+example : normalizeAxis1 (-1) 2 = some 1 := by decide
+example : (rollView [2, 3] (-1) (-1)).map (·.map [1, 2]) = some (some [1, 0]) := by decide
+example : rollSrc 3 2 (-1) = 0 := by decide
+example : (rollNoneView [2, 3] 1).map (·.map [1, 0]) = some (some [0, 2]) := by decide
 
 end NmVerif.Props.C04
